@@ -303,6 +303,23 @@ def r155(prog, chk):
     ok = len(loop) == 1 and T(loop[0].iter) == f"{f.params()[1]}.components" and cfg.dominates(cfg.node_of(loop[0]), cfg.node_of(rep[0]))
     chk.ob("R15.5", f"{f.short}|included bases are transformed before the composite is replayed", ok, where(f, recs[0]), detail="for component in glyph.components: ... self.filter(base_glyph) ... rec.replay(filterpen)",
            message=f"{f.short}: the composite is replayed before its included bases have been transformed (their compensation is then missing)")
+    # every glyph that gets past the nothing-to-do return is redrawn through the transforming pen, has its anchors mapped and its
+    # advance transformed: none of the three is skipped for some glyphs (a composite on transformed bases needs its component
+    # offsets compensated, M o C o M^-1, even for a plain offset when the component is flipped / rotated / scaled)
+    steps = {"replay": rep[0]}
+    anchors_loop = [n for n in A.body_nodes(f.node) if isinstance(n, ast.For) and T(n.iter) == f"{f.params()[1]}.anchors"]
+    wstore = [s_ for s_, t, v in attr_stores(f, "width")]
+    if len(anchors_loop) == 1:
+        steps["anchors"] = anchors_loop[0]
+    if len(wstore) == 1:
+        steps["advance"] = wstore[0]
+    cond_steps = {k: [T(g.test, 50) for g in may_conds(prog, f, n) if g.kind in ("if", "boolop", "ifexp", "while", "for") and not is_early_exit_guard(prog, f, g)] for k, n in steps.items()}
+    ok = len(steps) == 3 and not any(cond_steps.values())
+    chk.ob("R15.5", f"{f.short}|outline replay, anchor mapping and advance are applied to every glyph that is transformed at all", ok, where(f, rep[0]),
+           detail=f"unconditional after the nothing-to-do return: {sorted(steps)}",
+           message=f"{f.short}: {', '.join(k for k, v in cond_steps.items() if v) or 'a step'} is skipped for some glyphs ({[v for v in cond_steps.values() if v][:1]}): a composite on "
+                   f"already transformed bases needs its component offsets compensated by the pen even when the filter only shifts (flipped / rotated / scaled components move "
+                   f"differently from their bases)")
     adds = [c for c in calls_named(f, "add") if "modified" in T(c.func.value)]
     ok = len(adds) == 1
     if ok:
@@ -369,10 +386,14 @@ def r155(prog, chk):
     ok = ok and len(m_init) == 1 and len(st) == 1 and T(st[0][2]) == m_init[0].targets[0].id
     chk.ob("R15.5", f"{sc.short}|matrix = offset, then (to origin, scale, slant, back) built with the Transform algebra from Identity", ok, where(sc), detail=" -> ".join(seq),
            message=f"{sc.short}: the order in which offset / origin shift / scale / slant are composed changed ({seq})")
-    chk.minimum("R15.5", 8)
+    chk.minimum("R15.5", 9)
 
 
 MUTANTS = [
+    M("pure composites on shifted bases are not redrawn (seeded C15i)", "ufo2ft/filters/transformations.py", "TransformationsFilter.filter",
+      "rec.replay(filterpen)", "if len(glyph) or any(c.baseGlyph not in modified for c in glyph.components):\n    rec.replay(filterpen)", rule="R15.5"),
+    M("advance only transformed for glyphs with an outline", "ufo2ft/filters/transformations.py", "TransformationsFilter.filter",
+      "glyph.width, glyph.height = matrix.transformVector((glyph.width, glyph.height))", "if len(glyph):\n    glyph.width, glyph.height = matrix.transformVector((glyph.width, glyph.height))", rule="R15.5"),
     M("static decompose filter re-implemented with a recording pen (seeded C02c)", "ufo2ft/filters/decomposeComponents.py", "DecomposeComponentsFilter.filter",
       "decomposeCompositeGlyph(glyph, self.context.glyphSet)",
       "rec = DecomposingRecordingPointPen(self.context.glyphSet)\nglyph.drawPoints(rec)\nglyph.clearComponents()\nrec.replay(glyph.getPointPen())", rule="R15.6"),
